@@ -132,6 +132,9 @@ func (h *hist) fail(prop, sig, detail string) {
 }
 
 func (h *hist) result(r string) {
+	if r == "R panic" {
+		h.w.dead = true
+	}
 	fmt.Fprintln(h.out, r)
 	f := strings.Fields(r)
 	if len(f) >= 2 {
@@ -288,10 +291,7 @@ func atoi(f []string, i int) int {
 	return v
 }
 
-func (h *hist) userOp() {
-	h.copyOnly = false
-	h.expectValid = h.expectValid && true
-}
+func (h *hist) userOp() { h.copyOnly = false }
 
 // exec runs one op line. It returns false when the line is the history terminator.
 func (h *hist) exec(f []string) bool {
@@ -306,6 +306,17 @@ func (h *hist) exec(f []string) bool {
 	h.step++
 	h.st.ops[f[0]]++
 	fmt.Fprintln(h.out, strings.Join(f, " "))
+	if w.dead {
+		// a panic left the real objects in an unknown state: nothing more is executed
+		h.result("R dead")
+		return true
+	}
+	defer func() {
+		if w.dead {
+			return
+		}
+		h.emitObs()
+	}()
 	switch f[0] {
 	case "A":
 		h.userOp()
@@ -500,7 +511,6 @@ func (h *hist) exec(f []string) bool {
 	default:
 		h.result("R badop")
 	}
-	h.emitObs()
 	return true
 }
 
